@@ -246,6 +246,18 @@ def _readback_individual(ctx, rng, case, post, feats):
         return
     finally:
         _INJECT['chains'] = None
+    if rng.random() < 0.5:
+        # a dataset is a mapping: the order in which it stores its variables
+        # (re-assembled, merged, loaded from file) is not the order of the
+        # parameters; unrelated variables may sit in between
+        order_ = [str(v) for v in rng.permutation(list(ds.data_vars))]
+        ds2 = ds[order_[:1]]
+        ds2['an unrelated variable'] = ds[order_[0]] * 0 + 17.0
+        for v_ in order_[1:]:
+            ds2[v_] = ds[v_]
+        ds2.attrs = dict(ds.attrs)
+        ds = ds2
+        feats['dataset_variable_order'] = 'shuffled'
     try:
         pw = chi.compute_pointwise_loglikelihood(ll, ds)
         vals = np.asarray(pw.values if hasattr(pw, 'values') else pw)
